@@ -15,6 +15,11 @@ func ProcessExecutionPayload(ctx context.Context, spec *common.Spec, state Execu
 	if engine == nil {
 		return errors.New("nil execution engine")
 	}
+	// extra_data is a ByteList[MAX_EXTRA_DATA_BYTES]. The SSZ decoder refuses a longer value, JSON/YAML input and
+	// in-memory construction do not, and ExecutionPayloadHeader.View() below panics on it: reject it here.
+	if x := len(executionPayload.ExtraData); x > common.MAX_EXTRA_DATA_BYTES {
+		return fmt.Errorf("execution payload extra data is too long: %d bytes", x)
+	}
 
 	slot, err := state.Slot()
 	if err != nil {
